@@ -94,9 +94,14 @@ def corruptions(f, text):
         if not R.is_leap(y):
             out.append(("feb-29-nonleap", "%04d0229" % y + text[8:]))
         out.append(("letter-in-date", text[:2] + "X" + text[3:]))
+    if n == "date":
+        # the bracketed offset belongs to the time of day: a bare date followed by one is outside the notation
+        out.append(("date-with-offset", text + "[-6:CST]"))
+        out.append(("date-with-ms", text + ".000"))
     if n != "date":
         a = date_len
         out.append(("hour-24", text[:a] + "24" + text[a + 2 :]))
+        out.append(("hour-24-exactly-midnight", text[:a] + "240000" + text[a + 6 :]))
         out.append(("minute-60", text[: a + 2] + "60" + text[a + 4 :]))
         out.append(("second-61", text[: a + 4] + "61" + text[a + 6 :]))
         out.append(("time-short", text[: a + 5] + text[a + 6 :]))
